@@ -319,6 +319,16 @@ def dump_options(o):
     return out
 
 
+def dump_or_error(r):
+    """Comparable form of a real_parse result."""
+    if r[0] == 'ok':
+        try:
+            return dump_options(r[1])
+        except TypeError as e:
+            return [('T', 'ill-typed'), ('S', str(e))]
+    return [('T', r[0]), ('T', r[1])]
+
+
 # ------------------------------------------------------------------ Coq terms
 
 def cstr(s):
